@@ -94,7 +94,7 @@ func battery(c cfgT) func(s *sl.ShardSystem) {
 		sl.PQCheck(&s.Obs, "flat", env, s.M, prop)
 		for qi, qv := range queries {
 			for _, limit := range []int{1, 2, 75} {
-				for _, w := range []*float32{nil, f32(0.5), f32(-2)} {
+				for _, w := range []*float32{nil, f32(0.5), f32(-2), f32(0)} {
 					if w != nil && limit == 75 {
 						continue
 					}
@@ -146,7 +146,7 @@ type quant struct {
 }
 
 func master(cfg *harness.Config, rep *harness.Report) {
-	rep.Rule = "breadth-first search over write histories (insert with and without the vector, move, duplicate position, remove/add the field, the same point twice in one update batch, delete, node-id reuse) x metric {euclidean, dot, cosine, haversine, hamming, jaccard} x quantiser {none, binary fixed threshold, binary learned (trigger 3), product (2x2, trigger 3)} x cache state {warm unlimited, reopened cold before every query, disabled, 1-byte limit}; after every batch 4 query vectors x limit {1,2,75} x weight {nil,0.5,-2} x pre-filter {none, subset, empty, partly vectorless}; each answer must be exactly the k nearest admissible points under the float64 definition of the index distance (ties at the cut either way)"
+	rep.Rule = "breadth-first search over write histories (insert with and without the vector, move, duplicate position, remove/add the field, the same point twice in one update batch, delete, node-id reuse) x metric {euclidean, dot, cosine, haversine, hamming, jaccard} x quantiser {none, binary fixed threshold, binary learned (trigger 3), product (2x2, trigger 3)} x cache state {warm unlimited, reopened cold before every query, disabled, 1-byte limit}; after every batch 4 query vectors x limit {1,2,75} x weight {nil,0.5,-2,0} x pre-filter {none, subset, empty, partly vectorless}; each answer must be exactly the k nearest admissible points under the float64 definition of the index distance (ties at the cut either way)"
 	rep.Assumptions = []string{"product quantiser: trigger threshold 3 instead of the HTTP layer's minimum of 1000 (same code path, training reachable within the bound); 2 sub-vectors x 2 centroids; centroids and centroid ids are read back from the bucket (k-means starts from a random point) and checked for consistency, the quantised distance is then the definition", "a learned threshold is read back from the bucket, not predicted", "float32 rounding tolerance 1e-4 relative"}
 	p := pool.New(pool.Options{CPUsPerWorker: 2, JobTimeout: 60 * time.Second})
 	if cfg.Replay != "" {
